@@ -80,6 +80,15 @@ func c17(w *core.World, r *core.Report) {
 	r.Rule("R17.9", "the mode marker of an existing namespace says what is there until the migration has run", 1)
 	ruleModeMarkerTruthful(w, r)
 
+	r.Rule("R17.10", "a running output adopts a new replication id only after its checkpoint was moved there: every attempt is made with (new id, the id still held)", 1)
+	ruleRunIdAdoptedAfterMove(w, r)
+
+	r.Rule("R17.11", "a failed look-up of the stored position surfaces as an error, never as 'nothing stored'", 3)
+	ruleLookupErrorsSurface(w, r)
+
+	r.Rule("R17.12", "every command on the id → name index is issued with database 0 selected by the same function", 4)
+	ruleIndexInDbZero(w, r)
+
 	r.Rule("R17.6", "an index entry is deleted only under a test that it is not the entry just written (old id != new id)", 2)
 	for _, name := range []string{"pkg/redis/checkpoint.UpdateCheckpoint", "(*syncer.syncer).resolveBisyncCheckpointNameWithClient"} {
 		f := fn(w, r, name)
@@ -1109,4 +1118,296 @@ func ruleModeMarkerTruthful(w *core.World, r *core.Report) {
 		return
 	}
 	r.Check(bad == "" && n > 0, "resolveBisyncCheckpointNameWithClient/mode-marker", pos, "%s (writes of the desired mode seen on paths=%d)", bad, n)
+}
+
+
+// ---------------------------------------------------------------- R17.10 the id is adopted after the checkpoint was moved
+
+// ruleRunIdAdoptedAfterMove: RedisOutput.SetRunId moves the stored checkpoint from
+// the id the output holds to the new one (UpdateCheckpoint(name, [new, held])) and
+// retries on failure. The "held" id is the output's own field: if the field is
+// overwritten with the new id before the move has succeeded — before the first
+// attempt, or after a failed one — the (next) attempt runs with (new, new), finds
+// nothing stored under it, writes the "none yet" marker (-1) under the new id and
+// the position stored under the old id is lost. Every store of the id field in
+// SetRunId must therefore follow a successful UpdateCheckpoint on its path.
+func ruleRunIdAdoptedAfterMove(w *core.World, r *core.Report) {
+	f := fn(w, r, "(*syncer.RedisOutput).SetRunId")
+	if f == nil {
+		return
+	}
+	isIdStore := func(in ssa.Instruction) bool {
+		st, ok := in.(*ssa.Store)
+		if !ok {
+			return false
+		}
+		fa, ok := st.Addr.(*ssa.FieldAddr)
+		return ok && core.FieldName(fa) == "RunId" && strings.HasSuffix(core.TypeName(fa.X.Type()), "RedisOutputConfig")
+	}
+	n := 0
+	seen := map[*ssa.Function]bool{}
+	var scope []*ssa.Function
+	for _, g := range reachableFuncs(f) {
+		if g != f && !(core.Transparent != nil && core.Transparent(g)) {
+			continue
+		}
+		for _, d := range core.DeepFuncs(g) {
+			if !seen[d] {
+				seen[d] = true
+				scope = append(scope, d)
+			}
+		}
+	}
+	for _, g := range scope {
+		has := false
+		for _, in := range core.OwnInstrs(g) {
+			if isIdStore(in) {
+				has = true
+			}
+		}
+		if !has {
+			continue
+		}
+		bad := ""
+		var pos token.Pos = g.Pos()
+		okEnum := core.EnumPathsN(g.Blocks[0], 0, 200000, 1, func(p *core.Path) {
+			if bad != "" {
+				return
+			}
+			moved := false
+			for _, in := range p.Instrs {
+				if ci, isCall := in.(*ssa.Call); isCall {
+					s := core.ResolveCall(ci)
+					if s.Name == "pkg/redis/checkpoint.UpdateCheckpoint" {
+						moved = false
+						if e := s.Value(); e != nil && pathNil(p, e) {
+							moved = true
+						}
+					}
+				}
+				if isIdStore(in) && in.Parent() == g {
+					n++
+					if !moved {
+						bad, pos = "the output's replication id is overwritten on a path on which the checkpoint has not been moved to it (before the attempt, or after a failed one): the next attempt runs with (new id, new id), writes a fresh record with offset -1 and the stored position is lost", in.Pos()
+					}
+				}
+			}
+		})
+		if !okEnum {
+			r.Undecided("RedisOutput.SetRunId/adopt-after-move", g.Pos(), "too many paths")
+			return
+		}
+		if bad != "" {
+			r.Fail("RedisOutput.SetRunId/adopt-after-move", pos, "%s", bad)
+			return
+		}
+	}
+	r.Check(n > 0, "RedisOutput.SetRunId/adopt-after-move", f.Pos(), "SetRunId never adopts the new id")
+}
+
+// ---------------------------------------------------------------- R17.11 a failed look-up of the stored position is not "nothing stored"
+
+// ruleLookupErrorsSurface: the functions that read the stored position
+// (fetchCheckpoint, GetCheckpoint, GetCheckpointHash and what they call in the
+// checkpoint package) ask the target with EXISTS / HGET / HGETALL / SELECT. A
+// failed command must surface as an error: answered as "no record" it makes
+// UpdateCheckpoint write the "none yet" marker over a good position and makes
+// StartPoint answer (?, -1) — a full resynchronisation — although the position is
+// stored. Decided per function: on no path does a call whose error the path has
+// seen non-nil end in a nil error result. The exceptions are enumerated (a "not
+// found" reply that the code turns into an empty answer on purpose).
+var lookupErrorExceptions = map[string]string{}
+
+func ruleLookupErrorsSurface(w *core.World, r *core.Report) {
+	roots := []string{"pkg/redis/checkpoint.GetCheckpoint", "pkg/redis/checkpoint.GetCheckpointHash", "pkg/redis/checkpoint.fetchCheckpoint", "pkg/redis/checkpoint.UpdateCheckpoint", "pkg/redis/checkpoint.getDbMap"}
+	seen := map[*ssa.Function]bool{}
+	var scope []*ssa.Function
+	for _, name := range roots {
+		f := w.Func(name)
+		if f == nil {
+			continue
+		}
+		for _, g := range reachableFuncs(f) {
+			if !seen[g] && g.Pkg != nil && strings.HasSuffix(g.Pkg.Pkg.Path(), "pkg/redis/checkpoint") {
+				seen[g] = true
+				scope = append(scope, g)
+			}
+		}
+	}
+	errT := types.Universe.Lookup("error").Type()
+	n := 0
+	for _, g := range scope {
+		res := g.Signature.Results()
+		if res.Len() == 0 || !types.Identical(res.At(res.Len()-1).Type(), errT) {
+			continue
+		}
+		bad, pos, calls, okEnum := seenErrorsSurface(g, "a failed look-up reads as 'nothing stored'")
+		if !okEnum {
+			r.Undecided(shortName(core.FuncName(g))+"/lookup-errors-surface", g.Pos(), "too many paths")
+			continue
+		}
+		if calls == 0 {
+			continue
+		}
+		n++
+		r.Check(bad == "", shortName(core.FuncName(g))+"/lookup-errors-surface", pos, "%s", bad)
+	}
+	if n < 3 {
+		r.Fail("checkpoint/lookup-errors-surface", token.NoPos, "only %d look-up functions with error results were found", n)
+	}
+}
+
+// ---------------------------------------------------------------- R17.12 the id → name index lives in database 0
+
+// ruleIndexInDbZero: readers look the index up in database 0 (GetCheckpointHash
+// selects 0 first). Every command on the index key must therefore be issued with
+// database 0 selected by the same function, on every path: a writer that relies on
+// "the caller has just read the index on this connection" writes the entry into
+// whatever database the connection was moved to meanwhile (UpdateCheckpoint moves
+// it to the database of the old record), the entry in database 0 keeps pointing to
+// a record that is then deleted, and the next start finds no position.
+func ruleIndexInDbZero(w *core.World, r *core.Report) {
+	const indexKey = "redis-gunyu-checkpoint-hash"
+	n := 0
+	for _, g := range w.Funcs() {
+		uses := false
+		for _, in := range core.OwnInstrs(g) {
+			if ci, ok := in.(ssa.CallInstruction); ok {
+				for _, a := range ci.Common().Args {
+					if s, isS := core.ConstString(a); isS && s == indexKey {
+						uses = true
+					}
+				}
+			}
+			// the key may travel in the variadic argument list of Do
+			if st, ok := in.(*ssa.Store); ok {
+				if mi, isMI := st.Val.(*ssa.MakeInterface); isMI {
+					if s, isS := core.ConstString(mi.X); isS && s == indexKey {
+						uses = true
+					}
+				}
+			}
+		}
+		if !uses {
+			continue
+		}
+		onIndex := func(s core.Site, p *core.Path) bool {
+			for _, a := range s.Common().Args {
+				if str, isS := core.ConstString(a); isS && str == indexKey {
+					return true
+				}
+				if els, ok := core.VariadicElems(a); ok {
+					for _, e := range els {
+						if str, isS := core.ConstString(core.Unwrap(e)); isS && str == indexKey {
+							return true
+						}
+					}
+				}
+			}
+			return false
+		}
+		bad := ""
+		var pos token.Pos = g.Pos()
+		cmds := 0
+		okEnum := core.EnumPathsN(g.Blocks[0], 0, 200000, 1, func(p *core.Path) {
+			if bad != "" {
+				return
+			}
+			inZero := false
+			for _, s := range pathSites(p) {
+				if s.Name == "pkg/redis.SelectDB" {
+					a := s.Args()
+					inZero = len(a) == 2 && isConstInt(0)(p.Resolve(a[1])) && !failedOn(p, s.Value())
+					continue
+				}
+				if s.Instr.Parent() != g || !onIndex(s, p) {
+					continue
+				}
+				cmds++
+				if !inZero {
+					bad, pos = "a command on the id → name index is issued on a path on which this function has not selected database 0 (or selected another database since): the entry is read or written in whatever database the connection happens to be in", s.Pos()
+				}
+			}
+		})
+		name := shortName(core.FuncName(g))
+		if !okEnum {
+			r.Undecided(name+"/index-in-db-0", g.Pos(), "too many paths")
+			continue
+		}
+		if cmds == 0 {
+			continue
+		}
+		n++
+		r.Check(bad == "", name+"/index-in-db-0", pos, "%s", bad)
+	}
+	if n < 4 {
+		r.Fail("checkpoint/index-in-db-0", token.NoPos, "only %d functions that use the index key were found (6 on the pinned tree)", n)
+	}
+}
+
+// seenErrorsSurface: on no path of g does a call whose error the path has seen non-nil (a test of
+// it was taken on the failure side) end in a nil error result. The one accepted idiom is the
+// "nil reply" sentinel: the path established that the error is ErrNil.
+func seenErrorsSurface(g *ssa.Function, consequence string) (string, token.Pos, int, bool) {
+	bad := ""
+	var pos token.Pos = g.Pos()
+	calls := 0
+	errT := types.Universe.Lookup("error").Type()
+	okEnum := core.EnumPathsN(g.Blocks[0], 0, 200000, 1, func(p *core.Path) {
+			ret, isRet := p.End.(*ssa.Return)
+			if !isRet || ret.Parent() != g || bad != "" {
+				return
+			}
+			for _, s := range pathSites(p) {
+				v := s.Value()
+				if v == nil || s.Instr.Parent() != g {
+					continue
+				}
+				// calls that report an error
+				hasErr := false
+				switch t := v.Type().(type) {
+				case *types.Tuple:
+					hasErr = t.Len() > 0 && types.Identical(t.At(t.Len()-1).Type(), errT)
+				default:
+					hasErr = types.Identical(v.Type(), errT)
+				}
+				if !hasErr {
+					continue
+				}
+				calls++
+				if !failedOn(p, v) {
+					continue
+				}
+				if !pathNil(p, ret.Results[len(ret.Results)-1]) {
+					continue
+				}
+				key := shortName(core.FuncName(g)) + "/" + shortCallee(s)
+				if _, ok := lookupErrorExceptions[key]; ok {
+					continue
+				}
+				// the idiom for "the reply was nil": the path established that the error is the ErrNil sentinel
+				isErrNil := func(x ssa.Value) bool {
+					ld, ok := core.Unwrap(p.Resolve(x)).(*ssa.UnOp)
+					if !ok || ld.Op != token.MUL {
+						return false
+					}
+					gl, ok := ld.X.(*ssa.Global)
+					return ok && gl.Name() == "ErrNil"
+				}
+				notFound := false
+				for _, fct := range p.Conds {
+					if c, ok := core.FactCmp(fct); ok && c.Op == token.EQL && (isErrNil(c.X) || isErrNil(c.Y)) {
+						notFound = true
+					}
+					if call, ok := core.Unwrap(p.Resolve(fct.Cond)).(*ssa.Call); ok && fct.Val && core.ResolveCall(call).Name == "errors.Is" && len(call.Call.Args) == 2 && isErrNil(call.Call.Args[1]) {
+						notFound = true
+					}
+				}
+				if notFound {
+					continue
+				}
+				bad, pos = "the error of "+s.Name+" is seen on this path, yet the function reports success: "+consequence, ret.Pos()
+			}
+		})
+	return bad, pos, calls, okEnum
 }
